@@ -12,6 +12,72 @@ import logging
 logging.disable(logging.CRITICAL)
 
 
+def thorough_parallel(prop, seed, nworkers):
+    """Thorough tier: the case space is split over worker processes (each also draws its own random stream);
+    the parent does the build and the proof gate once and merges coverage, violations and known findings."""
+    import subprocess
+    import tempfile
+    import time
+    t0 = time.time()
+    v = common.Verdict(prop, "thorough", seed)
+    common.proof_gate(v, prop, getattr(importlib.import_module(f"harness.{prop.lower()}"), "EXTRA_PROPS", ()))
+    outs, procs = [], []
+    tmpd = tempfile.mkdtemp(prefix="cfdp-verif-w", dir="/dev/shm")
+    for i in range(nworkers):
+        out = os.path.join(tmpd, f"w{i}.json")
+        env = dict(os.environ, VERIF_WORKERS=str(nworkers), VERIF_WORKER=str(i), VERIF_WORKER_OUT=out,
+                   VERIF_SKIP_GATE="1", VERIF_SEED=str(seed * 1000 + i))
+        procs.append(subprocess.Popen([sys.executable, "-m", "harness.main", prop, "thorough"], env=env,
+                                      stdout=subprocess.DEVNULL, stderr=subprocess.PIPE, text=True))
+        outs.append(out)
+    sigs = set()
+    totals = {}
+    samples = []
+    dist = {}
+    for pr, out in zip(procs, outs):
+        _, err = pr.communicate()
+        if not os.path.exists(out):
+            v.violation("a worker of the thorough run aborted: " + (err or "").strip().splitlines()[-1:][0] if err else "worker aborted",
+                        {"stderr": (err or "")[-2000:], "theorem": f"props/{prop}.v / correspondence (worker aborted)"}, has_input=False)
+            continue
+        d = json.loads(open(out).read())
+        c = d["coverage"]
+        for k, val in c.items():
+            if isinstance(val, int) and not isinstance(val, bool) and k not in ("obligations", "discharged", "print_assumptions_closed",
+                                                                                 "print_assumptions_total", "distinct_nontrivial"):
+                totals[k] = totals.get(k, 0) + val
+        for k, val in c.items():
+            if k not in v.coverage and not isinstance(val, int) and k not in ("signature_hashes", "samples", "distribution"):
+                v.coverage[k] = val
+        sigs |= set(c.get("signature_hashes") or [])
+        if c.get("signature_hashes") is None:
+            totals["distinct_nontrivial"] = totals.get("distinct_nontrivial", 0) + c.get("distinct_nontrivial", 0)
+        for k, n in (c.get("distribution") or {}).items():
+            dist[k] = dist.get(k, 0) + n
+        samples += (c.get("samples") or [])[:1]
+        v.coverage.setdefault("rule", c.get("rule"))
+        for what, replay, has_input in d["violations"]:
+            v.violation(what, replay, has_input)
+        for fid, what in d["known"].items():
+            v.known_hits[fid] = what
+        v.notes += d.get("notes", [])
+        for a in d.get("assumptions", []):
+            if a not in v.assumptions:
+                v.assumptions.append(a)
+    import shutil
+    shutil.rmtree(tmpd, ignore_errors=True)
+    v.coverage.update(totals)
+    if sigs:
+        v.coverage["distinct_nontrivial"] = len(sigs)
+    v.coverage["distribution"] = dist
+    v.coverage["samples"] = samples or [{"note": "see worker output"}]
+    v.coverage["workers"] = nworkers
+    v.coverage.setdefault("evaluations", totals.get("evaluations", 0))
+    if getattr(v, "proof_error", None) and not v.violations:
+        v.violation(v.proof_error, {"theorem": f"props/{prop}.v", "error": v.proof_error}, has_input=False)
+    return v.finish()
+
+
 def main(argv):
     if argv and argv[0] == "--setup":
         rep = common.build()
@@ -32,6 +98,9 @@ def main(argv):
     tier = argv[1]
     if tier not in ("quick", "thorough"):
         tier = os.environ.get("VERIF_TIER", "quick")
+    nworkers = int(os.environ.get("VERIF_THOROUGH_WORKERS", "8"))
+    if tier == "thorough" and nworkers > 1 and not os.environ.get("VERIF_WORKER_OUT") and getattr(mod, "PARALLEL", True):
+        return thorough_parallel(prop, seed, nworkers)
     try:
         return mod.run(tier, seed)
     except Exception:  # noqa: BLE001
